@@ -360,6 +360,11 @@ class CallGraph:
                         cs.targets, cs.kind = ts, "resolved"
                         cs.ext = "param:" + name
                         return cs
+                    ext = self._param_externals(name, g)
+                    if ext is not None:
+                        # every call site passes a function of an imported host library (math.sqrt, ...)
+                        cs.kind, cs.ext = "external", ext
+                        return cs
                 cds = self._class_dict(name, f)
                 if cds:
                     # name = TABLE[key] with TABLE a dict literal of classes: a constructor call
@@ -493,6 +498,19 @@ class CallGraph:
             for kw in call.keywords:
                 if kw.arg == name:
                     a = kw.value
+            if isinstance(a, ast.Attribute) and isinstance(a.value, ast.Name) and a.value.id in self.self_aliases(h) and h.cls is not None:
+                # a bound method of the same object passed as a value: self._parse_block_statement
+                m = self.t.find_method(h.cls, a.attr)
+                if m is None:
+                    return None
+                out.append(m)
+                continue
+            if isinstance(a, ast.Lambda):
+                lf = next((l for l in self._all_lambdas() if l.node is a), None)
+                if lf is None:
+                    return None
+                out.append(lf)
+                continue
             if not isinstance(a, ast.Name):
                 return None
             ci = self._class_visible(a.id, h)
@@ -506,6 +524,51 @@ class CallGraph:
                 return None
             out.append(tf)
         return list({id(x): x for x in out}.values())
+
+    def _param_externals(self, name: str, g: Func) -> Optional[str]:
+        """Parameter `name` of g is called inside g (or a closure of g).  When every call site of g passes an
+        attribute of an imported host module for it (unary(math.sqrt)), the dotted names joined by '|'."""
+        idx_all = self.__dict__.get("_calls_by_name")
+        if idx_all is None:
+            idx_all = {}
+            for h in self.t.funcs:
+                for n in h.own_nodes():
+                    if isinstance(n, ast.Call):
+                        cn = n.func.attr if isinstance(n.func, ast.Attribute) else (n.func.id if isinstance(n.func, ast.Name) else None)
+                        if cn:
+                            idx_all.setdefault(cn, []).append((n, h))
+            self.__dict__["_calls_by_name"] = idx_all
+        if len(self.t.funcs_named(g.name)) != 1:
+            return None
+        params = [a.arg for a in g.node.args.args]
+        if name not in params:
+            return None
+        pos = params.index(name) - (1 if g.cls is not None and g.parent is None and params and params[0] in ("self", "cls") else 0)
+        sites = idx_all.get(g.name, [])
+        if not sites:
+            return None
+        out = []
+        for call, h in sites:
+            a = call.args[pos] if 0 <= pos < len(call.args) else None
+            for kw in call.keywords:
+                if kw.arg == name:
+                    a = kw.value
+            d = dotted(a) if a is not None else None
+            if d is None or "." not in d:
+                return None
+            head = d.split(".")[0]
+            imp = h.module.imports.get(head)
+            if not ((imp and imp[0].startswith("ext:") and not self._is_local_var(head, h)) or self._fn_level_import(head, h)):
+                return None
+            out.append(d)
+        return "|".join(sorted(set(out)))
+
+    def _all_lambdas(self) -> List[Func]:
+        c = self.__dict__.get("_lambda_funcs")
+        if c is None:
+            c = [f for f in self.t.funcs if isinstance(f.node, ast.Lambda)]
+            self.__dict__["_lambda_funcs"] = c
+        return c
 
     def _fn_level_import(self, head: str, f: Func) -> bool:
         key = (id(f), head)
@@ -567,8 +630,25 @@ class CallGraph:
                 if isinstance(n, ast.Name) and isinstance(n.ctx, ast.Load):
                     tf = self._lookup_name_func(n.id, f)
                     if tf is not None and not self._is_shadowed(n.id, f, tf):
+                        if self._handed_to_wrapper(n, tf):
+                            continue  # only the wrapper it is handed to calls it: the edge runs through the wrapper
                         es.add(id(tf))
             self._edges[id(f)] = es
+
+    def _handed_to_wrapper(self, n: ast.Name, tf: Func) -> bool:
+        """n (a reference to function tf) is an argument of a call to repository functions whose parameter call
+        (`fn(*args)` in the function or a closure of it) was resolved to tf: the decorator-by-hand idiom."""
+        par = getattr(n, "_parent", None)
+        if not (isinstance(par, ast.Call) and n in par.args):
+            return False
+        cs = self.site_of_call.get(id(par))
+        if cs is None or cs.kind != "resolved" or not cs.targets:
+            return False
+        for w in cs.targets:
+            inner = [w] + list(w.children.values())
+            if not any(c2.ext and c2.ext.startswith("param:") and any(x is tf for x in c2.targets) for g in inner for c2 in self.sites_of.get(id(g), [])):
+                return False
+        return True
 
     def _find_natives(self) -> None:
         """Functions that can become script-callable values."""
